@@ -167,12 +167,16 @@ check("C18", "TLC enumeration of import forms x conditions x positions (MCCss im
       "without a sign the rule must re-tokenise to itself.",
       "DESIGN.md §4.6, §6 C18", CSS_NOTE)
 
-check("C19", "TLC enumeration of MCCss families with provenance ids + source-map entries checked against the concretiser's recorded positions",
+check("C19", "TLC enumeration of MCCss families with provenance ids + trace validation of both real outputs against the output machine (OutMap / OutMapTrace: write position folded from the tokens, entries at the cursor, ordered, at source token starts, at their provenance) + source-map entries checked against the concretiser's recorded positions",
       "Every expected output token carries the id of the input token it comes from; the concretiser records the line / "
       "UTF-16 column where it spelled that token (after comments, across line breaks, after astral characters); each "
       "generated token must have a source-map entry at its generated column that points at that position, entries are "
-      "ordered, names carry the original spelling of rewritten tokens, and the map survives JSON serialisation.",
-      "DESIGN.md §4.6, §6 C19", CSS_NOTE)
+      "ordered, names carry the original spelling of rewritten tokens, and the map survives JSON serialisation. "
+      "spec/OutMap.tla is the output machine (Entry / Write / Close; model-checked by MCOutMap); every real output is turned into a trace "
+      "(re-tokenised text interleaved with the decoded map, in map order) and validated event by event by TLC (OutMapTrace): every ENTRY of "
+      "the map - not only those of expected tokens - must stand at the true UTF-16 write position, in order, and point at the start of a "
+      "source token (never into a comment); closing brackets synthesised by a rewrite point at the bracket they close.",
+      "DESIGN.md §4.6, §6 C19, §13.8", CSS_NOTE)
 
 
 check("C01", "TLC enumeration of the WxmlGen / CssGen generator machines (all paths to a length bound, simulation walks) replayed through every entry point in isolated workers with parser-event fuel + CursorTrace validation of recorded parser traces + growth sweep",
